@@ -11,8 +11,12 @@ import time
 
 VERIF = os.path.dirname(os.path.dirname(os.path.abspath(__file__)))
 REPO = os.environ.get('VERIF_REPO', '/repo')
-CACHE = os.path.join(VERIF, '.cache')
-OUT = os.path.join(VERIF, 'out')
+# Trial mode (development aid for seeded changes): VERIF_REPO=<scratch worktree> VERIF_CACHE=<dir> runs a check against
+# another tree with its own build cache; evidence and replay files then go under that cache, never into /verif/evidence.
+SCRATCH = REPO != '/repo'
+CACHE = os.environ.get('VERIF_CACHE') or (os.path.join(VERIF, '.cache') if not SCRATCH else os.path.join(REPO, '.verif-cache'))
+OUT = os.path.join(VERIF, 'out') if not SCRATCH else os.path.join(CACHE, 'out')
+EVIDENCE_DIR = os.environ.get('VERIF_EVIDENCE_DIR') or (os.path.join(VERIF, 'evidence') if not SCRATCH else os.path.join(CACHE, 'evidence'))
 MMDUMP = os.path.join(CACHE, 'target-mmdump', 'release', 'mmdump')
 MMDUMP_DEBUG = os.path.join(CACHE, 'target-mmdump', 'debug', 'mmdump')
 ENV = dict(os.environ, CARGO_NET_OFFLINE='true')
@@ -56,7 +60,20 @@ def build_mmdump(debug=False):
     """(re)build tools/mmdump against /repo's working tree; cargo decides freshness"""
     t = time.time()
     env = dict(ENV, RUSTFLAGS='--cfg mimium_verif', CARGO_TARGET_DIR=os.path.join(CACHE, 'target-mmdump'))
-    r = subprocess.run(['cargo', 'build', '--offline'] + ([] if debug else ['--release']), cwd=os.path.join(VERIF, 'tools', 'mmdump'),
+    src = os.path.join(VERIF, 'tools', 'mmdump')
+    if SCRATCH:
+        # the helper's path dependencies name /repo: build a copy whose manifest points at the scratch tree
+        import shutil
+        dst = os.path.join(CACHE, 'mmdump-src')
+        shutil.rmtree(dst, ignore_errors=True)
+        shutil.copytree(src, dst, ignore=shutil.ignore_patterns('target'))
+        mf = os.path.join(dst, 'Cargo.toml')
+        with open(mf) as f:
+            t = f.read()
+        with open(mf, 'w') as f:
+            f.write(t.replace('"/repo/', '"%s/' % REPO.rstrip('/')))
+        src = dst
+    r = subprocess.run(['cargo', 'build', '--offline'] + ([] if debug else ['--release']), cwd=src,
                        env=env, capture_output=True, text=True)
     if r.returncode != 0:
         log(r.stderr[-4000:])
@@ -152,10 +169,10 @@ def load_known_findings():
 # evidence
 # ---------------------------------------------------------------------------------------------------
 def write_evidence(pid, tier, seed, level, coverage, assumptions, wall_s, violations):
-    os.makedirs(os.path.join(VERIF, 'evidence'), exist_ok=True)
+    os.makedirs(EVIDENCE_DIR, exist_ok=True)
     ev = dict(property_id=pid, tier=tier, seed=seed, level=level, coverage=coverage,
               assumptions=assumptions, wall_s=round(wall_s, 2), violations=violations)
-    p = os.path.join(VERIF, 'evidence', '%s.json' % pid)
+    p = os.path.join(EVIDENCE_DIR, '%s.json' % pid)
     with open(p + '.tmp', 'w') as f:
         json.dump(ev, f, indent=1, default=str)
     os.rename(p + '.tmp', p)
